@@ -52,18 +52,20 @@ def finish(ctx):
 def generate(ctx):
     rng = ctx.rng
     dsw = import_dsw()
-    for _ in range(ctx.pick(28, 400)):
+    for _ in range(ctx.pick(32, 400)):
         k = rng.choice(ctx.pick([2, 2, 2, 3, 3, 4], [2, 2, 3, 3, 3, 4]))
         g = generated_graph(dsw, rng, k)
         if g is None:
             continue
         acc, t, fam = g
         yield "history", dict(gens.graph_case(acc, k), t=t, fam=fam, ins=rng.random() < 0.5, dele=rng.random() < 0.5,
-                              max_steps=(10 ** 6 if k <= 3 else ctx.pick(25, 250)))
+                              max_steps=(10 ** 6 if k <= 3 else ctx.pick(25, 250)),
+                              views=rng.choice(["library", "library", "hand-built map", "fortran accessor", "strided accessor"]))
 
 
 def _norm(lm):
-    return {int(a): [int(x) for x in b] for a, b in lm.items()}
+    """The graph a latter map describes: follower *sets* per vertex (list order carries no meaning)."""
+    return {int(a): sorted(int(x) for x in b) for a, b in lm.items()}
 
 
 def _step(ctx, dsw, k, acc, lm, ins, dele, steps, where):
@@ -71,7 +73,7 @@ def _step(ctx, dsw, k, acc, lm, ins, dele, steps, where):
     bigb = 10 ** 9
     pre_acc = np.array(acc)
     pre_lm = copy.deepcopy(lm)
-    proxy = CountingAccessor(acc)
+    proxy = CountingAccessor(acc) if acc.flags.c_contiguous else acc
     sc = monitored(dsw.calculate_intersection_score, bigb, copy.deepcopy(pre_lm), observed_length=k, has_insertion=ins, has_deletion=dele)
     out = monitored(dsw.remove_nasty_arc, bigb, proxy, lm, steps, ins, dele)
     sub = dict(k=k, arcs=G.acc_to_hex(pre_acc), ins=ins, dele=dele)
@@ -121,7 +123,7 @@ def _step(ctx, dsw, k, acc, lm, ins, dele, steps, where):
                 ctx.cls("score call did not return (not judged)")
             if (post[u] < 0).all():
                 lost = 1
-    if len(proxy.write_log) != 1:
+    if isinstance(proxy, CountingAccessor) and len(proxy.write_log) != 1:
         ctx.cls("accessor writes per call != 1 (evidence only)")
     view = monitored(dsw.accessor_to_latter_map, bigb, post)
     if view.kind == "ok":
@@ -134,7 +136,10 @@ def _step(ctx, dsw, k, acc, lm, ins, dele, steps, where):
             bad = sorted(set(a) ^ set(b)) or [x for x in a if a[x] != b.get(x)]
             ctx.fail("views-out-of-step", "latter map and accessor disagree after the call (vertices %s); %s" % (bad[:5], where), "step", sub)
     ctx.done("step", sub, meaningful)
-    return "ok", np.array(post), r_lm, lost, (r_acc is proxy and r_lm is lm)
+    nxt = np.array(post) if acc.flags.c_contiguous else r_acc      # keep the unusual memory layout through the history
+    if not acc.flags.c_contiguous and not isinstance(r_acc, np.ndarray):
+        nxt = np.array(post)
+    return "ok", nxt, r_lm, lost, (r_acc is proxy and r_lm is lm)
 
 
 def check_step(ctx, case):
@@ -151,6 +156,23 @@ def check_history(ctx, case):
     ins, dele = case["ins"], case["dele"]
     flags = "insertion=%s deletion=%s" % (ins, dele)
     lm = dsw.accessor_to_latter_map(acc)
+    views = case.get("views", "library")
+    if views == "hand-built map":      # the same graph, keys and follower lists in arbitrary order, plain ints
+        keys = [int(a) for a in lm]
+        ctx.rng.shuffle(keys)
+        hand = {}
+        for a in keys:
+            row = [int(x) for x in lm[a]]
+            ctx.rng.shuffle(row)
+            hand[a] = row
+        lm = hand
+    elif views == "fortran accessor":  # same values, column-major memory
+        acc = np.asfortranarray(acc)
+    elif views == "strided accessor":  # a non-contiguous view of a wider table
+        wide = np.full((acc.shape[0], 8), -1, dtype=acc.dtype)
+        wide[:, ::2] = acc
+        acc = wide[:, ::2]
+    ctx.cls("views|" + views)
     steps = lost_last = 0
     ident = True
     while steps < case["max_steps"]:
@@ -184,6 +206,9 @@ def floors(agg, tier):
     for f in ("insertion=True deletion=True", "insertion=True deletion=False", "insertion=False deletion=True", "insertion=False deletion=False"):
         if c.get("flags|" + f, 0) < 20:
             out.append("flag combination %s observed %d < 20" % (f, c.get("flags|" + f, 0)))
+    for v in ("hand-built map", "fortran accessor", "strided accessor"):
+        if c.get("views|" + v, 0) < 20:
+            out.append("histories with %s: %d < 20" % (v, c.get("views|" + v, 0)))
     if c.get("histories in which a vertex lost its last arc", 0) < 50:
         out.append("histories with a vertex losing its last arc: %d < 50" % c.get("histories in which a vertex lost its last arc", 0))
     if agg["evaluations"] < 3000:
